@@ -463,6 +463,12 @@ func (c *checker) runCase(in caseInput, deep bool) (devVsys []panos.VerifVsys, r
 		}
 		res.Count("oracle:pairs")
 		c.plain = fl["plain"] == "1"
+		if fl["grp"] == "1" {
+			res.Count("fragment:grp-pair")
+			if fl["plain"] != "1" {
+				res.Count("fragment:grp-pair-with-groups")
+			}
+		}
 		if c.plain {
 			res.Count("fragment:plain-pair")
 			if fl["tnames"] == "1" && fl["srvnd"] == "1" {
